@@ -110,6 +110,16 @@ class World:
         elif k == "blk-add":          # x.blocks.add(b)
             self.bis[op[2]].blocks.add(self.blks[op[1]])
             self.emit("blkmove %d %d 0" % (op[1], op[2]))
+        elif k == "blk-update":       # x.blocks.update([b1, b2, ...])
+            self.bis[op[2]].blocks.update([self.blks[i] for i in op[1]])
+            for i in op[1]:
+                self.emit("blkmove %d %d 0" % (i, op[2]))
+        elif k == "burst":            # several edits of one interval in a row
+            x = self.bis[op[1]]
+            for a in op[2]:
+                x.address = a
+                self.emit("biset %d %s %d" % (op[1], "-" if a is None else a,
+                                              x.size))
         elif k == "blk-discard":      # x.blocks.discard(b)
             b = self.blks[op[1]]
             member = b.byte_interval is self.bis[op[2]]
@@ -225,8 +235,15 @@ class World:
         if r < 0.7:
             return ("blk-parent", rng.randrange(N_BLK),
                     rng.choice([None] + list(range(N_BI)) * 2))
-        if r < 0.78:
+        if r < 0.74:
             return ("blk-add", rng.randrange(N_BLK), rng.randrange(N_BI))
+        if r < 0.765:
+            return ("blk-update", rng.sample(range(N_BLK),
+                                             rng.randrange(2, 6)),
+                    rng.randrange(N_BI))
+        if r < 0.78:
+            return ("burst", rng.randrange(N_BI),
+                    [rng.choice(ADDRS) for _ in range(rng.randrange(3, 8))])
         if r < 0.83:
             return ("blk-discard", rng.randrange(N_BLK), rng.randrange(N_BI))
         if r < 0.9:
